@@ -20,16 +20,42 @@ struct Out {
     max_out: (u32, u32),
 }
 
-fn one(i: usize, seed: u64, thorough: bool) -> Out {
+fn one(i: usize, seed: u64, thorough: bool, big: Option<usize>) -> Out {
     let mut rng = ChaCha8Rng::seed_from_u64(seed ^ 0xc12 ^ (i as u64).wrapping_mul(0x9e3779b97f4a7c15));
     let n = 2 + (i / 7) % 3;
     let ands = if i % 97 == 96 { 1100 } else if i % 193 == 100 || (thorough && i % 211 == 210) { 2100 + (i % 3) * 1000 } else { [0usize, 1, 2, 3, 5][i % 5] };
     let mut cfg = circ::random_gen_cfg(&mut rng, n, ands);
     if ands > 500 { cfg.others = 40; cfg.extra_regs = 24; cfg.reuse_pct = 50; }
-    let c = circ::gen_circuit(&mut rng, &cfg);
+    let (n, c) = match big {
+        None => (n, circ::gen_circuit(&mut rng, &cfg)),
+        Some(j) => {
+            // single messages above 1 MiB: j even = ~60000 output registers ('output wire shares'),
+            // j odd = ~60000 input bits of one party ('wire shares', 'labels', 'masked inputs')
+            let n = 2 + (j / 2) % 2;
+            let wide = 60_000 + 1000 * (j % 5);
+            let ins: Vec<usize> = (0..n).map(|p| if j % 2 == 1 && p == (j / 4) % n { wide } else { 2 }).collect();
+            let mut b = circ::Builder::new(&ins);
+            let mut outs = vec![];
+            let a0 = b.and(b.input(0, 0), b.input(1, 1));
+            let mut acc = a0;
+            if j % 2 == 0 {
+                for k in 0..wide {
+                    acc = if k % 3 == 0 { b.not(acc) } else { b.xor(acc, b.input(k % n, k % 2)) };
+                    outs.push(acc);
+                }
+            } else {
+                let q = (j / 4) % n;
+                for k in (0..wide).step_by(997) {
+                    acc = b.xor(acc, b.input(q, k));
+                }
+                outs.push(acc);
+            }
+            (n, b.finish(outs))
+        }
+    };
     let inputs = circ::random_inputs(&mut rng, &c);
     let p_eval = (i / 3) % n;
-    let p_out: Vec<usize> = (0..n).filter(|_| rng.random_bool(0.7)).collect();
+    let p_out: Vec<usize> = (0..n).filter(|_| big.is_some() || rng.random_bool(0.7)).collect();
     let p_out = if p_out.is_empty() { vec![rng.random_range(0..n)] } else { p_out };
     let a = rng.random_range(0..n);
     let b = (a + 1 + rng.random_range(0..n - 1)) % n;
@@ -42,7 +68,7 @@ fn one(i: usize, seed: u64, thorough: bool) -> Out {
         5 => SchedKind::EagerRandom,
         _ => SchedKind::RoundRobin,
     };
-    let cap = [Some(1), Some(2), None][(i / 2) % 3];
+    let cap = if big.is_some() { [Some(1), Some(2)][(i / 2) % 2] } else { [Some(1), Some(2), None][(i / 2) % 3] };
     let tmp: Vec<bool> = (0..n).map(|_| rng.random_bool(0.15)).collect();
     let expected = circ::eval_clear(&c, &inputs);
     let mut case = Case::new(c.clone(), inputs.clone(), p_eval, p_out.clone());
@@ -76,9 +102,9 @@ fn one(i: usize, seed: u64, thorough: bool) -> Out {
             sig = Some(format!("two {kind} outstanding for the same peer at once"));
         }
     }
-    let key = format!("n={n} E={p_eval} cap={:?} sched={} ands={} slow-send={}", cap, sched_name(&sched), crate::props::c01::and_class(ands), i % 2 == 1);
+    let key = format!("n={n} E={p_eval} cap={:?} sched={} ands={} slow-send={}{}", cap, sched_name(&sched), crate::props::c01::and_class(ands), i % 2 == 1, match big { Some(j) if j % 2 == 0 => " big-output-message", Some(_) => " big-input-messages", None => "" });
     let sample = json!({"n": n, "p_eval": p_eval, "p_out": p_out, "capacity": cap, "scheduler": format!("{sched:?}"), "tmp": bits(&tmp),
-        "circuit": circ::circ_to_json(&c), "steps": ex.steps, "polls": ex.polls, "messages": ex.net.msgs.len(),
+        "circuit": if big.is_some() { json!("(wide circuit, omitted)") } else { circ::circ_to_json(&c) }, "steps": ex.steps, "polls": ex.polls, "messages": ex.net.msgs.len(),
         "outcomes": ex.outcomes.iter().map(outcome_str).collect::<Vec<_>>(), "end": format!("{:?}", ex.end),
         "max_outstanding_sends_per_peer": ex.net.max_out_send, "max_outstanding_recvs_per_peer": ex.net.max_out_recv,
         "outstanding_violation": ex.net.outstanding_violation});
@@ -101,10 +127,11 @@ fn sched_name(s: &SchedKind) -> &'static str {
 pub fn run(tier: &str, seed: u64) -> i32 {
     let thorough = tier == "thorough";
     let mut rep = Report::new("C12", tier, seed, "exploration");
-    rep.rule = "honest executions under seeded schedulers (round-robin, uniform random, PCT with 1-3 change points, starve-one-party, starve-one-link, lazy / eager delivery) x channel capacity 1, 2, unbounded x n=2..4 x every evaluator; oracle: every party Ok(clear-text value), never stuck, never two sends or two receives outstanding per (party, peer). distinct = (n, evaluator, capacity, scheduler kind, AND class); non-trivial = the run had at least one scheduling choice (steps > 0); distinct schedules and interleavings are counted by hash".into();
+    rep.rule = "honest executions under seeded schedulers (round-robin, uniform random, PCT with 1-3 change points, starve-one-party, starve-one-link, lazy / eager delivery) x channel capacity 1, 2, unbounded x n=2..4 x every evaluator, plus circuits whose single messages exceed 1 MiB (about 60000 output registers resp. 60000 input bits of one party) under capacity 1 and 2; oracle: every party Ok(clear-text value), never stuck, never two sends or two receives outstanding per (party, peer). distinct = (n, evaluator, capacity, scheduler kind, AND class); non-trivial = the run had at least one scheduling choice (steps > 0); distinct schedules and interleavings are counted by hash".into();
     rep.assumptions = vec!["per-pair FIFO, reliable channel; schedules are sampled, not enumerated".into()];
     let n_runs = if thorough { 30000 } else { 3000 };
-    let outs = parallel_for(n_runs, threads(), |i| one(i, seed, thorough));
+    let n_big = if thorough { 96 } else { 12 };
+    let outs = parallel_for(n_runs + n_big, threads(), |i| if i < n_runs { one(i, seed, thorough, None) } else { one(i - n_runs + (seed as usize % 4), seed, thorough, Some(i - n_runs)) });
     let mut scheds = std::collections::BTreeSet::new();
     let mut ilvs = std::collections::BTreeSet::new();
     let mut steps = 0u64;
